@@ -21,13 +21,15 @@ def conditions(tier):
             L = 4 if (codec in ("nurikabe", "sudoku", "nurimisaki") and h * w == 2 and not q) or (not q and h * w <= 4) else 3
             if q and codec in ("nurikabe", "sudoku") and (h, w) == (1, 2):
                 L = 4
+            if q and (h * w == 4 or codec == "yajilin"):
+                L = 2
             cs.append(C(HF, codec, "h_text", h, w, l=L, t=T * (2 if L >= 4 else 1),
                         key="h_text:%s:%s" % (codec, "dim0" if h * w == 0 else ("1xN" if min(h, w) == 1 else "HxW"))))
     for codec in ("Rooms", "Rooms_skip", "Rooms_redundant", "ValuedRooms", "Grid_SpacesHex"):
         for (h, w) in ([(0, 1), (1, 0), (1, 2), (2, 2)] if q else dims):
-            cs.append(C(HF, codec, "h_text", h, w, l=3, t=T, key="h_text:%s:%s" % (codec, "dim0" if h * w == 0 else ("1xN" if min(h, w) == 1 else "HxW"))))
+            cs.append(C(HF, codec, "h_text", h, w, l=2 if (q and h * w == 4) else 3, t=T, key="h_text:%s:%s" % (codec, "dim0" if h * w == 0 else ("1xN" if min(h, w) == 1 else "HxW"))))
     for codec in PUZZLES:
-        cs.append(C(HF, codec, "h_url_fields", t=3 * T, VERIF_DMAX=2 if q else 3, key="url-fields:" + codec))
+        cs.append(C(HF, codec, "h_url_fields", t=4 * T, VERIF_DMAX=2 if q else 3, key="url-fields:" + codec))
     for codec in (("nurikabe", "heyawake") if q else PUZZLES):
         cs.append(C(HF, codec, "h_url_any", l=5 if q else 6, t=T, key="url-any"))
     return cs
